@@ -262,3 +262,39 @@ CHECKS["C12"] = {
     "rule": _ssr_rule, "trusted": _ssr_trusted,
     "assumptions": ["sync SSR mode"],
 }
+
+# C01/C02: dynamic graphs under NoLateEdge (Lemmas/PropagateDyn.lean + Props/C01Dynamic.lean)
+_dyn = [RX + n for n in ["C01_dynamic_set", "C01_dynamic_set_run", "noLateEdgeStatic_run", "C01_dynamic_set_exists", "C01_dynamic_execSet",
+                         "C01_dynamic_execSet_run", "C01_dynamic_runClosure", "C01_dynamic_runNodeUpdate", "C01_dynamic_loop_run",
+                         "C01_dynamic_static", "d1_violates_noLateEdge", "d1_violates_noLateEdgeRun", "dynDemo_instance", "dynDemo2_instance",
+                         "dynDemo3_instance"]]
+for _p in ("C01", "C02"):
+    CHECKS[_p]["lean_modules"].append("SycVerif.Props.C01Dynamic")
+    CHECKS[_p]["theorems"] += _dyn
+CHECKS["C01"]["manifest_text"] = ("Lean model of the whole propagation machinery (propagate_node_updates, dfs, run_node_update, mark_dependents_dirty, create_dependency_link, dispose, batch) executing closure programs of a DSL. POSITIVE (C01_dynamic_set / C01_dynamic_set_run, with C01_static_set as the branch-free instance): for every arena of signals and pure computations — memos, selectors with coarse equality, effects, with CONDITIONAL reads, so dependency edges change while the write is propagated — that is consistent at rest, every write for which no computation starts reading a still-pending computation (NoLateEdge, stated both statically and on the actual trace) propagates successfully (explicit fuel bound) to a state that is again consistent at rest: every computation holds what its function yields from the current values, its dependency list is the tracked reads of its latest run, nothing dirty, all marks reset, signals untouched, each computation ran at most once and only if reachable from the written signal. NEGATIVE: without that hypothesis the statement is PROVED FALSE (C01_full_false, kernel-evaluated late-edge witness = known finding D1, replayed on the real code), and the witness is proved to violate exactly the hypothesis (d1_violates_noLateEdge). Model tied to /repo by comparing, after every operation of tens of thousands of generated programs, values/liveness/run traces/edge counts with the real sycamore-reactive; the real code is additionally judged by a from-scratch reference evaluation.")
+CHECKS["C01"]["manifest_note"] = "Partial only in scope: the theorems cover pure computations (tracked reads and conditional reads); bodies that create/dispose nodes, read untracked or write signals are covered by the correspondence and the oracle only. Known finding D1 (late edge) is reported as KNOWN-FINDING, any other staleness is a violation."
+CHECKS["C01"]["status"] = "C01_full false (D1 witness); C01 proved for all pure programs under NoLateEdge (C01_dynamic_set_run), which the D1 witness provably violates"
+CHECKS["C01"]["partial"] = [{"theorem": "C01 for impure bodies", "missing": "bodies that create or dispose nodes, untracked reads, effects that write: correspondence + oracle only"}]
+CHECKS["C02"]["status"] = "schedule theorems for all arenas; for all pure programs under NoLateEdge: each computation runs at most once, only if reachable, reads only non-pending (hence consistent) computations, ends consistent (C01_dynamic_set_run/LoopInvD); clause (i) is false for late edges (D1)"
+CHECKS["C02"]["partial"] = [{"theorem": "C02 clause (iii) as a stand-alone statement", "missing": "'re-runs only if something it tracked was written/re-ran/changed' is implied by the dirty-flag invariant (LoopInvD.dirty) but not restated over run logs"}]
+
+# the lift: every reachable state is well formed; only documented panics (Lemmas/Preserve.lean + Props/ReactiveWF.lean)
+_wf = [RX + n for n in ["inv_init", "reachable_inv", "reachable_noDangling", "reachable_edgesSym", "reachable_treeOk", "reachable_ownershipOk",
+                        "execStmt_inv", "runNodeUpdate_inv", "disposeNode_inv", "propagateUpdates_inv", "presAll"]]
+_safe = [RX + n for n in ["safeAll", "reachable_no_unwrapNone", "reachable_errors", "reachable_xinv", "reachable_valueless",
+                          "runNodeUpdate_no_unwrapNone", "propagateLoop_no_unwrapNone", "execStmt_no_unwrapNone", "disposeNode_no_unwrapNone"]]
+for _p in ("C03", "C04", "C11"):
+    CHECKS[_p]["lean_modules"].append("SycVerif.Props.ReactiveWF")
+CHECKS["C04"]["theorems"] += _wf
+CHECKS["C04"]["status"] = "full over the model: the structural disposal theorems hold on every dangling-free, symmetric, well-owned arena, and EVERY state reachable by EVERY DSL program (arbitrary closures, self-disposal, nested batches, cleanups that do anything) is such an arena (reachable_inv); cleanups with side effects inside the disposed subtree: exactly-once by correspondence/oracle"
+CHECKS["C04"]["manifest_note"] = "The subtree theorem's cleanup clause is proved for cleanups consisting of reads (InertBody); for arbitrary cleanups exactly-once is checked by the oracle and the correspondence. All other clauses hold for every reachable state (reachable_inv)."
+CHECKS["C04"]["partial"] = [{"theorem": "disposeNode_spec for side-effecting cleanups", "missing": "exactly-once execution when cleanups themselves create/dispose/write"}]
+CHECKS["C03"]["theorems"] += _wf[:6] + [RX + "C04_link_exact", RX + "C04_rerun_unsubscribes"]
+CHECKS["C03"]["lean_modules"].append("SycVerif.Props.C04Edges")
+CHECKS["C03"]["status"] = "tracker discipline proved for all bodies; in every reachable state the subscription graph is dangling-free and symmetric (reachable_inv) and each (re-)run links the computation to exactly the live nodes it tracked, as a list (C04_link_exact); for pure programs dependencies = tracked reads of the latest run at rest (DynArena.deps in C01_dynamic_set)"
+CHECKS["C03"]["partial"] = [{"theorem": "edge exactness at rest for impure bodies", "missing": "dependencies n = tracked reads of n's latest run as a whole-program theorem for bodies that create/dispose/write (holds per run by C04_link_exact)"}]
+CHECKS["C11"]["theorems"] += _safe + [RX + "reachable_inv", RX + "disposeNode_inv", RX + "execStmt_inv"]
+CHECKS["C11"]["manifest_text"] = ("Lean theorems over the whole interpreter, for EVERY DSL program (arbitrary closures that create, write, batch, and dispose ANY handle or the current scope at ANY point — inside running memos/effects, cleanups, batches): every reachable state keeps the arena invariants (ownership tree, dangling-free symmetric subscription graph: reachable_inv, presAll), a run can fail only with a documented panic class — use of a signal/scope the program itself destroyed, duplicate context, (cyclic) — never with an internal unwrap of a missing callback/value (reachable_errors, reachable_no_unwrapNone, safeAll); plus site-level totality of the repaired index sites (D4). Crash-point enumeration on the real code: dispose(h) for every nameable handle and dispose of the current scope inserted at every position of every body that runs during a propagation, plus random disposals; any panic the harness did not predict from liveness is a violation; the model reproduces every observed panic class.")
+CHECKS["C11"]["manifest_note"] = "The model returns an explicit error at each remaining index site of the real code (stale key = slotKey, disposed signal = disposed); reachable_errors shows nothing else can happen. RefCell double borrows are not modelled (they would show up as panic class `borrow` in the correspondence)."
+CHECKS["C11"]["status"] = "C11_total proved over the model: invariants preserved by every operation of every program, only documented panics"
+CHECKS["C11"]["partial"] = []
